@@ -5,7 +5,7 @@ from copy import deepcopy
 from typing import Any, Optional, Tuple, Union
 
 import torch
-from linear_operator.operators import LinearOperator, MaskedLinearOperator, ZeroLinearOperator
+from linear_operator.operators import LinearOperator, ZeroLinearOperator
 from torch import Tensor
 from torch.distributions import Distribution, Normal
 
@@ -46,29 +46,26 @@ class _GaussianLikelihoodBase(Likelihood):
 
         # Handle NaN values if enabled
         nan_policy = settings.observation_nan_policy.value()
+        mean, variance = input.mean, input.variance
         if nan_policy == "mask":
+            # mean and variance are laid out like the targets (event_shape), whatever the layout of the covariance matrix
+            # (interleaved or not): select the observed entries of both with the same mask
             observed = settings.observation_nan_policy._get_observed(target, input.event_shape)
-            input = MultivariateNormal(
-                mean=input.mean[..., observed],
-                covariance_matrix=MaskedLinearOperator(
-                    input.lazy_covariance_matrix, observed.reshape(-1), observed.reshape(-1)
-                ),
-            )
+            mean, variance = mean[..., observed], variance[..., observed]
             noise = noise[..., observed]
             target = target[..., observed]
         elif nan_policy == "fill":
             missing = torch.isnan(target)
             target = settings.observation_nan_policy._fill_tensor(target)
 
-        mean, variance = input.mean, input.variance
         res = ((target - mean).square() + variance) / noise + noise.log() + math.log(2 * math.pi)
         res = res.mul(-0.5)
 
         if nan_policy == "fill":
             res = res * ~missing
 
-        # Do appropriate summation for multitask Gaussian likelihoods
-        num_event_dim = len(input.event_shape)
+        # Do appropriate summation for multitask Gaussian likelihoods (masking has already flattened the event shape)
+        num_event_dim = 1 if nan_policy == "mask" else len(input.event_shape)
         if num_event_dim > 1:
             res = res.sum(list(range(-1, -num_event_dim, -1)))
 
@@ -85,28 +82,26 @@ class _GaussianLikelihoodBase(Likelihood):
 
         # Handle NaN values if enabled
         nan_policy = settings.observation_nan_policy.value()
+        mean, variance = marginal.mean, marginal.variance
         if nan_policy == "mask":
+            # mean and variance are laid out like the observations (event_shape), whatever the layout of the covariance
+            # matrix (interleaved or not): select the observed entries of both with the same mask
             observed = settings.observation_nan_policy._get_observed(observations, marginal.event_shape)
-            marginal = MultivariateNormal(
-                mean=marginal.mean[..., observed],
-                covariance_matrix=MaskedLinearOperator(
-                    marginal.lazy_covariance_matrix, observed.reshape(-1), observed.reshape(-1)
-                ),
-            )
+            mean, variance = mean[..., observed], variance[..., observed]
             observations = observations[..., observed]
         elif nan_policy == "fill":
             missing = torch.isnan(observations)
             observations = settings.observation_nan_policy._fill_tensor(observations)
 
         # We're making everything conditionally independent
-        indep_dist = base_distributions.Normal(marginal.mean, marginal.variance.clamp_min(1e-8).sqrt())
+        indep_dist = base_distributions.Normal(mean, variance.clamp_min(1e-8).sqrt())
         res = indep_dist.log_prob(observations)
 
         if nan_policy == "fill":
             res = res * ~missing
 
-        # Do appropriate summation for multitask Gaussian likelihoods
-        num_event_dim = len(marginal.event_shape)
+        # Do appropriate summation for multitask Gaussian likelihoods (masking has already flattened the event shape)
+        num_event_dim = 1 if nan_policy == "mask" else len(marginal.event_shape)
         if num_event_dim > 1:
             res = res.sum(list(range(-1, -num_event_dim, -1)))
         return res
